@@ -95,6 +95,8 @@ func init() {
 				Edits: []Edit{{File: "driver/options/channel.go", Old: "\t\tc, ok := o.(*channel.Channel)\n\n\t\tif !ok {\n\t\t\treturn util.ErrIgnoredOption\n\t\t}\n\n\t\tc.ReturnChar = []byte(s)\n", New: "\t\tif _, isDriver := o.(*channel.Channel); !isDriver && o == nil {\n\t\t\treturn util.ErrIgnoredOption\n\t\t}\n\n\t\tc := o.(*channel.Channel)\n\n\t\tc.ReturnChar = []byte(s)\n"}}},
 			{ID: "C19-resolve-before-assertion", Desc: "WithSSHConfigFile resolves the path before looking at the object", Rule: "C19/ignored-first",
 				Edits: []Edit{{File: "driver/options/transportssh.go", Old: "func WithSSHConfigFile(s string) util.Option {\n\treturn func(o interface{}) error {\n\t\ta, ok := o.(*transport.SSHArgs)\n\n\t\tif !ok {\n\t\t\treturn util.ErrIgnoredOption\n\t\t}\n\n\t\tsshF, err := util.ResolveFilePath(s)\n\t\tif err != nil {\n\t\t\treturn util.ErrFileNotFoundError\n\t\t}\n", New: "func WithSSHConfigFile(s string) util.Option {\n\treturn func(o interface{}) error {\n\t\tsshF, err := util.ResolveFilePath(s)\n\t\tif err != nil {\n\t\t\treturn util.ErrFileNotFoundError\n\t\t}\n\n\t\ta, ok := o.(*transport.SSHArgs)\n\n\t\tif !ok {\n\t\t\treturn util.ErrIgnoredOption\n\t\t}\n"}}},
+			{ID: "C19-factory-forgets-args-error", Desc: "NewTransport goes on to build the transport without looking at the error of NewSSHArgs", Rule: "C19/error-before-use",
+				Edits: []Edit{{File: "transport/factory.go", Old: "\t\t\tsshArgs, err = NewSSHArgs(options...)\n\t\t\tif err != nil {\n\t\t\t\treturn nil, err\n\t\t\t}\n", New: "\t\t\tsshArgs, err = NewSSHArgs(options...)\n"}}},
 			{ID: "C19-platform-rewraps-option-error", Desc: "the platform constructor prints the driver constructor's error instead of wrapping it", Rule: "C19/constructors-relay",
 				Edits: []Edit{{File: "platform/definition.go", Old: "\t\td, err = generic.NewDriver(host, finalOpts...)\n\t\tif err != nil {\n\t\t\treturn err\n\t\t}", New: "\t\td, err = generic.NewDriver(host, finalOpts...)\n\t\tif err != nil {\n\t\t\treturn fmt.Errorf(\"%w: failed creating generic driver: %s\", util.ErrPlatformError, err)\n\t\t}"}}},
 			{ID: "C19-shared-ssh-args", Desc: "NewSSHArgs hands out one package-level SSHArgs", Rule: "C19/fresh-objects",
@@ -140,6 +142,8 @@ func runC19(c *Ctx, r *Report) {
 	checkOptionIgnoredFirst(c, r, "C19/ignored-first")
 	r.Rule("C19/constructors-relay", "constructors hand on the errors of options and nested constructors unwrapped or wrapped with %w", 1)
 	checkConstructorsRelayErrors(c, r, "C19/constructors-relay")
+	r.Rule("C19/error-before-use", "in the constructors (and the helpers they reach) no product of a call is used before the error that came with it has been tested: an option that one constructor rejected is not forgotten by the next", 1)
+	checkValueBeforeErrorCheck(c, r, "C19/error-before-use", constructorScope(c), "constructors")
 	importFoundation(c, r, "C19", "platform-fresh")
 	r.Rule("C19/O1O2", "ignored sentinel only on the non-matching path and never after a store; no success without the store; stores only into the asserted target", 45)
 	r.Rule("C19/O3", "each option stores exactly the setting the specification names, taking the value from its own parameter or constant", 45)
